@@ -1440,6 +1440,13 @@ class TrigInfo:
             Function.store_hass_context(hass_context)
 
             if task_unique and task_unique_func:
+                if (
+                    self.task_unique_kwargs
+                    and self.task_unique_kwargs["kill_me"]
+                    and Function.unique_name_used(ast_ctx, task_unique)
+                ):
+                    # another run claimed the name after the trigger fired: kill_me means this run gives way
+                    return
                 await task_unique_func(task_unique)
             try:
                 await ast_ctx.call_func(func, None, **kwargs)
